@@ -46,9 +46,16 @@ def main():
         demo = os.path.join(src, "demo.rs")
         has_demo = os.path.exists(demo)
         env = {"CARGO_TARGET_DIR": TARGET}
+        over = {}
+        if os.path.exists(os.path.join(src, "eval.json")):
+            over = json.load(open(os.path.join(src, "eval.json")))
+        demo_cmd = over.get("demo_cmd", "cargo test --offline --test seed_demo")
+        meta["demo_cmd"] = demo_cmd
+        if "nightly" in demo_cmd:
+            env = {"CARGO_TARGET_DIR": TARGET + "-nightly"}
         if has_demo:
             shutil.copy(demo, os.path.join(wt, "tests", "seed_demo.rs"))
-            rc, out = sh("cargo test --offline --test seed_demo 2>&1 | tail -15", cwd=wt, env=env)
+            rc, out = sh(demo_cmd + " 2>&1 | tail -15", cwd=wt, env=env)
             meta["demo_without_change"] = "pass" if re.search(r"test result: ok", out) and "FAILED" not in out else "FAIL"
             meta["demo_without_change_tail"] = out[-600:]
             os.remove(os.path.join(wt, "tests", "seed_demo.rs"))
@@ -60,13 +67,13 @@ def main():
             meta["apply_error"] = out[-800:]
             print(json.dumps(meta, indent=1))
             return 1
-        rc, out = sh("cargo test --workspace --no-fail-fast --offline 2>&1 | grep -E '^test result|FAILED|failed|error' | head -20", cwd=wt, env=env)
+        rc, out = sh("cargo test --workspace --no-fail-fast --offline 2>&1 | grep -E '^test result|FAILED|failed|error' | head -20", cwd=wt, env={"CARGO_TARGET_DIR": TARGET})
         results = re.findall(r"test result: (\w+)\. (\d+) passed; (\d+) failed", out)
         meta["suite_with_change"] = "pass" if results and all(r[0] == "ok" for r in results) and "error" not in out else "FAIL"
         meta["suite_counts"] = [(int(a), int(b)) for _, a, b in results]
         if has_demo:
             shutil.copy(demo, os.path.join(wt, "tests", "seed_demo.rs"))
-            rc, out = sh("cargo test --offline --test seed_demo 2>&1 | tail -15", cwd=wt, env=env)
+            rc, out = sh(demo_cmd + " 2>&1 | tail -15", cwd=wt, env=env)
             meta["demo_with_change"] = "fail" if ("FAILED" in out or "error" in out or rc != 0) and "test result: ok" not in out else ("fail" if "FAILED" in out else "PASS")
             meta["demo_with_change_tail"] = out[-600:]
             os.remove(os.path.join(wt, "tests", "seed_demo.rs"))
